@@ -199,6 +199,33 @@ def guard_conditions(P, ctx, Env, name, o, param):
             o.witness('reaches-selection')
 
 
+def own_id_only(ctx, o):
+    """every pause / unpause / cancel call in the package is made by an asset about its own events (`self.id`): events scheduled under
+    the shared id -1 (the resource manager's availability check, the terminate event) and other assets' events are never withheld or
+    cancelled by someone else (shared with C10.5)"""
+    P = ctx.P
+    A = P.cls('Asset') if P.has_cls('Asset') else None
+    n = 0
+    for nm in ('pause_matching_events', 'unpause_matching_events', 'cancel_matching_events'):
+        for s in inv.method_calls(P, nm):
+            o.count()
+            n += 1
+            b = {}
+            for p_, a in zip(['asset_id'], s.node.args):
+                b[p_] = a
+            for kw in s.node.keywords:
+                if kw.arg:
+                    b[kw.arg] = kw.value
+            arg = b.get('asset_id')
+            own = arg is not None and ast.unparse(arg) in ('self.id', 'self._id') and s.cls is not None and A is not None and A in s.cls.mro
+            if not own:
+                o.fail(P, s.ctx, s.node, f'{nm} is called for `{ast.unparse(arg) if arg is not None else "?"}`, not for the calling asset\'s own id: events of other assets, or the events '
+                       'scheduled under the shared id -1 (availability check of the resource manager, end of run), would be withheld or cancelled', file=s.mod.path, line=s.line)
+            else:
+                o.witness((s.ctx, nm))
+    o.require(n >= 3, f'only {n} pause/unpause/cancel call sites found')
+
+
 def check(ctx):
     P = ctx.P
     Env = P.cls('Environment')
@@ -368,6 +395,8 @@ def check(ctx):
                 o4.fail(P, s.ctx, s.stmt, f'Event.{attr} is written outside its owners', file=s.mod.path, line=s.line)
             else:
                 o4.witness((attr,) + k)
+
+    own_id_only(ctx, o4)
 
     # ---- C07.5 --------------------------------------------------------------------------------------
     o5 = Ob('C07.5', 'K5', 'Event.execute never runs the action of a cancelled event (C01.6)')
